@@ -151,6 +151,26 @@ func (e *Encoder) writeValue(val reflect.Value, tagType byte) error {
 						data[i] = byte(val.Index(i).Int())
 					}
 				}
+			default: // elements behind interfaces: []any{int8(1), int8(2)}
+				data = make([]byte, n)
+				for i := range data {
+					elem := val.Index(i)
+					for elem.Kind() == reflect.Interface {
+						elem = elem.Elem()
+					}
+					switch elem.Kind() {
+					case reflect.Bool:
+						if elem.Bool() {
+							data[i] = 1
+						}
+					case reflect.Int8:
+						data[i] = byte(elem.Int())
+					case reflect.Uint8:
+						data[i] = byte(elem.Uint())
+					default:
+						return errors.New("value of kind " + elem.Kind().String() + " is not allowed in Tag 0x" + strconv.FormatUint(uint64(tagType), 16))
+					}
+				}
 			}
 			_, err := e.w.Write(data)
 			return err
